@@ -158,7 +158,8 @@ def run(ctx):
     #    "cut" instances (thorough tier): longer ranges, behaviours cut after MaxIter = 7 visits.
     A_UNB = consts(Plan="adaptive", StopN=5, MaxStepN=4, TargetN=8)            # adaptive_scan(0, 5/4, 1/4, 1, 2)
     T_UNB = consts(Plan="tune", Den=2, StartN=0, StopN=4, MinStepN=1, Num=3)   # tune_centroid(0, 2, 1/2, num=3, sf=2)
-    if quick:
+    if quick:       # quick tier: three readings (differences 1, 4, 5); the thorough tier uses {0, 1, 2, 5}
+        A_UNB["Readings"] = {0, 1, 5}
         T_UNB["Readings"] = {0, 1, 5}
     models = [("adaptive_scan_unbounded", A_UNB, True), ("tune_centroid_unbounded", T_UNB, True)]
     if not quick:
@@ -188,8 +189,8 @@ def run(ctx):
         nt = sum(1 for h in hists if any(e["gt"] for e in h["hist"]))
         npass = sum(1 for h in hists if h["pass"] > 0)
         npark = sum(1 for h in hists if h["parked"]["set"])
-        ctx.note(f"{label}: {len(hists)} histories; with a backward step {nb}, visit at a tie {nt}, second pass {npass}, "
-                 f"final move {npark}")
+        ctx.note(f"{label}: {len(hists)} histories; " + (f"with a backward step {nb}, with a visit exactly at stop (tie) {nt}"
+                 if c["Plan"] == "adaptive" else f"with a second pass {npass}, with a final move {npark}"))
         cover[c["Plan"]] = [a + b for a, b in zip(cover.get(c["Plan"], [0, 0, 0, 0]), [nb, nt, npass, npark])]
     if spec_ok and (cover["adaptive"][0] == 0 or cover["tune"][2] == 0 or cover["tune"][3] == 0):
         ctx.machinery(f"vacuous exploration: no backward step / second pass / final move in any history ({cover})")
@@ -251,8 +252,9 @@ def run(ctx):
         extra += 1
     v = validate_traces("AdaptiveTrace", "AdaptiveTrace.cfg", recs, SD, ctx.out, tag="C29t", java_opts=SMALL_JVM)
     ctx.add_tlc(v.res, "AdaptiveTrace")
-    ctx.traces(len(recs) - len(v.rejected) - (1 if v.invariant else 0))
-    for idx, upto in v.rejected.items():
+    # (TLC stops at the first invariant violation; the traces it had not finished by then are not judged)
+    ctx.traces(0 if v.invariant else len(recs) - len(v.rejected))
+    for idx, upto in ({} if v.invariant else v.rejected).items():
         kind, fam, p, run_ = meta[idx]
         d = 1 if p["stop"] >= p["start"] else -1
         opt = f"backstep={int(p['backstep'])}" if kind == "adaptive" else f"snake={int(p['snake'])}"
@@ -290,3 +292,22 @@ def run(ctx):
         "only run for adaptive_scan, python-side checks)",
         "TLC trace validation uses 10^-6 fixed point with tolerance 1e-4 on positions; integer-valued readings",
         "plans are driven by answering their messages by hand (cross-checked against a real RunEngine on a sample)"]
+
+
+def replay(ctx, obj):
+    """./check C29 --replay FILE: re-execute the failing case of a violation file on the real plan"""
+    rp = obj.get("replay") or obj
+    p = rp.get("params")
+    if not p:
+        print(json.dumps(obj, indent=1)[:4000])
+        return 0
+    kind = "adaptive" if "max" in p else "tune"
+    if "script" in rp:
+        run_ = drive(kind, p, script=rp["script"], cap=1000)
+    else:
+        print("(random response function: re-run ./check C29 with the same VERIF_SEED to regenerate it)")
+        print(json.dumps(obj, indent=1)[:4000])
+        return 0
+    print(f"{kind} {p}\nreadings {rp['script']}\nvisited  {[float(x) for x in run_.xs]}\nfinal move {run_.park}  status {run_.status}")
+    print("reported:", obj.get("what"))
+    return 0
